@@ -49,11 +49,42 @@ fn pick_cfg(rng: &mut Rng) -> (WorldCfg, Value) {
     (cfg, d)
 }
 
+/// indices from here on are the directed histories (a fixed script around the straddling submissions)
+const DIRECTED: u64 = 1_000_000;
+/// index + LEGACY: the random history `index` with the step choice of before the straddling step (corpus entries)
+const LEGACY: u64 = 2_000_000;
+const DIRECTED_WINDOWS: [(u64, u64); 5] = [(2, 4), (1, 3), (2, 10), (1, 2), (2, 3)];
+
+fn directed_cfg(k: u64) -> (WorldCfg, Value) {
+    let window = DIRECTED_WINDOWS[(k % 5) as usize];
+    let update_interval_millis = if k % 2 == 0 { 0 } else { 2 };
+    let chain = ChainCfg { genesis_epoch_length: 1000, window, ..Default::default() };
+    let cfg = WorldCfg { chain, max_tx_pool_size: 180_000_000, max_ancestors_count: 125, expiry_hours: 1, min_fee_rate: 1000, min_rbf_rate: 1500,
+        update_interval_millis, max_data: 64 };
+    let d = json!({"directed": k, "window": [window.0, window.1], "genesis_epoch_length": 1000, "update_interval_millis": update_interval_millis});
+    (cfg, d)
+}
+
 fn run_history(seed: u64, index: u64, mode_c12: bool, steps: u64) -> (drive::Obs, Vec<Value>, BTreeMap<String, u64>, Value) {
+    let hist_id = format!("seed={seed} index={index}");
+    if (DIRECTED..LEGACY).contains(&index) {
+        let k = index - DIRECTED;
+        let mut rng = Rng::new(seed ^ index.wrapping_mul(0x9E37_79B9_7F4A_7C15));
+        let (cfg, cfg_desc) = directed_cfg(k);
+        let mut d = drive::Driver::new(cfg, mode_c12, hist_id);
+        d.w.log(json!({"config": cfg_desc}));
+        d.run_directed(&mut rng, k);
+        d.w.stat("directed_histories");
+        let drive::Driver { w, obs, .. } = d;
+        let (viol, stats, _jops) = w.finish();
+        return (obs, viol, stats, cfg_desc);
+    }
+    let (legacy, index) = if index >= LEGACY { (true, index - LEGACY) } else { (false, index) };
     let mut rng = Rng::new(seed ^ index.wrapping_mul(0x9E37_79B9_7F4A_7C15));
     let (cfg, cfg_desc) = pick_cfg(&mut rng);
-    let hist_id = format!("seed={seed} index={index}");
     let mut d = drive::Driver::new(cfg, mode_c12, hist_id);
+    // HX_STRADDLE=0: the histories of before the straddling step (timing comparisons)
+    d.legacy_steps = legacy || env_u64("HX_STRADDLE", 1) == 0;
     d.w.log(json!({"config": cfg_desc}));
     d.run(&mut rng, steps);
     let drive::Driver { w, obs, .. } = d;
@@ -136,12 +167,17 @@ fn main() {
         if let Ok(Value::Array(a)) = serde_json::from_str::<Value>(&s) {
             for x in a {
                 if let (Some(sd), Some(i)) = (x["seed"].as_u64(), x["index"].as_u64()) {
-                    runs.push((sd, i));
+                    // entries recorded before the straddling step existed keep their step choice
+                    let legacy = x["steps"].as_u64().unwrap_or(1) < 2 && i < DIRECTED;
+                    runs.push((sd, if legacy { i + LEGACY } else { i }));
                 }
             }
         }
     }
     *stats.entry("corpus_histories".into()).or_default() += runs.len() as u64;
+    // directed histories: the four straddling submissions under each of the five proposal windows
+    let n_directed = if n_hist == 0 || env_u64("HX_STRADDLE", 1) == 0 { 0 } else { env_u64("HX_DIRECTED", 5) };
+    runs.extend((0..n_directed).map(|k| (seed, DIRECTED + k)));
     runs.extend(indices.drain(..).map(|i| (seed, i)));
     for (sd, i) in runs {
         let r = std::panic::catch_unwind(|| run_history(sd, i, mode_c12, steps));
@@ -171,6 +207,15 @@ fn main() {
         clean_scratch(&scratch);
         if viol.iter().filter(|v| v.get("signature").is_none()).count() > 5 {
             break;
+        }
+    }
+    // the critical schedule (pre-checked Proposed, submitted under a tip whose window no longer holds the id) must
+    // have been reached: a run that lost it says so instead of passing
+    if n_directed >= 5 && viol.iter().all(|v| v.get("signature").is_some()) {
+        for k in ["straddle_precheck_proposed_submit_pending", "straddle_precheck_pending_submit_gap", "straddle_precheck_pending_submit_proposed"] {
+            if stats.get(k).cloned().unwrap_or(0) == 0 {
+                viol.push(json!({"what": "harness coverage: no straddling submission of this class was generated", "detail": k}));
+            }
         }
     }
     // ---- Coq case files
@@ -213,7 +258,7 @@ fn main() {
     }
     let _ = fs::remove_dir_all(&scratch);
     let rule = if mode_c12 {
-        "histories on ONE real node with the tx-pool service started and a block assembler configured (always-success lock): submissions through TxPoolController::submit_local_tx (chains and diamonds of pooled txs, cell deps, header deps, conflicts / RBF, dead inputs, fees around min_fee_rate, output data up to the block size), blocks mined from the node's own template, outside blocks built by a second node (extensions, competing branches of depth 1..6 that take over, siblings; they commit pooled txs, secret conflicting txs and re-commit txs of the abandoned branch; proposals expire at w_far), clock steps around the expiry edge, two-step submissions (pre_check / pool change / submit_entry). After every change of the main chain the harness waits until the pool's snapshot is the chain's tip and evaluates the C12 predicate on the pool dump and the node's snapshot. distinct = histories with >= 3 evaluations"
+        "histories on ONE real node with the tx-pool service started and a block assembler configured (always-success lock): submissions through TxPoolController::submit_local_tx (chains and diamonds of pooled txs, cell deps, header deps, conflicts / RBF, dead inputs, fees around min_fee_rate, output data up to the block size), blocks mined from the node's own template, outside blocks built by a second node (extensions, competing branches of depth 1..6 that take over, siblings; they commit pooled txs, secret conflicting txs and re-commit txs of the abandoned branch; proposals expire at w_far), clock steps around the expiry edge, two-step submissions (pre_check / pool change / submit_entry), and straddling submissions (5 directed histories, one per proposal window, at the start of every run + a random step): a transaction never handed to the pool, its id committed on chain as a proposal by an outside block and the chain advanced to the END of its window (tip = proposal height + w_far - 1) / proposed only on a branch about to be abandoned / not proposed yet, is submitted through pre_check, <the node mines its own template | an outside block arrives | a heavier competing branch takes over> with the pool processing the change, submit_entry; the predicate is evaluated right after the insertion and the next template is mined. After every change of the main chain the harness waits until the pool's snapshot is the chain's tip and evaluates the C12 predicate on the pool dump and the node's snapshot. distinct = histories with >= 3 evaluations"
     } else {
         "the histories of C12; every template obtained from TxPoolController::get_block_template (steady state, right after a block while the reorg notification may still be in flight, after reorgs, at epoch boundaries of 4/6/9-block epochs, with candidate uncles, with max_block_bytes / max_block_cycles / proposals limit lowered so that they bind, pool near max_tx_pool_size / max_ancestors_count) is checked for limits, size bookkeeping (TemplateSize vs the real serialized block), parents-first order, and mined on the SAME node: blocking_process_block must accept it and make it the tip whenever its parent is the tip; the raw TxSelector selection (package_txs) is checked against a dump taken under the same lock (ancestor-closed, parents-first, only proposed, within limits). distinct = histories with >= 3 evaluations"
     };
